@@ -533,6 +533,36 @@ impl MutableArchive {
         let block_index = old_entry.block_index;
         let locale = old_entry.locale;
 
+        // An encrypted file is keyed by its plain name. When the rename changes that key the
+        // stored data has to be encrypted again, so store the content under the new name and
+        // drop the old entry instead of only moving the hash entry.
+        let block = self
+            .block_table
+            .as_ref()
+            .and_then(|table| table.entries().get(block_index as usize).copied());
+        if let Some(block) = block
+            && block.is_encrypted()
+            && hash_string(crate::path::plain_file_name(&old_name), hash_type::FILE_KEY)
+                != hash_string(crate::path::plain_file_name(&new_name), hash_type::FILE_KEY)
+        {
+            // Contents are read through the on-disk view of the archive: make it current,
+            // or a file replaced since the last flush would come back with its old content
+            if self.dirty {
+                self.flush()?;
+                self.archive = Archive::open(&self._path)?;
+            }
+            let data = self.read_file(&old_name)?;
+            let mut options = AddFileOptions::new().encrypt().locale(locale);
+            if block.flags & BlockEntry::FLAG_FIX_KEY != 0 {
+                options = options.fix_key();
+            }
+            if !block.is_compressed() {
+                options = options.compression(CompressionMethod::None);
+            }
+            self.add_file_data(&data, &new_name, options)?;
+            return self.remove_file(&old_name);
+        }
+
         // Remove old hash entry
         if let Some(hash_table) = &mut self.hash_table {
             hash_table.get_mut(old_hash_index).unwrap().block_index = HashEntry::EMPTY_DELETED;
